@@ -47,7 +47,7 @@ func (l *fontLRU) Put(k *font.Face, v *harfbuzz.Font) {
 	val := &fontEntry{key: k, v: v}
 	l.m[k] = val
 	l.insert(val)
-	if len(l.m) > l.maxSize {
+	for len(l.m) > l.maxSize && len(l.m) > 0 {
 		oldest := l.tail.next
 		l.remove(oldest)
 		delete(l.m, oldest.key)
